@@ -8,7 +8,7 @@
    count events; the places a closure can be in (queue, swapped-out list of a stop() in progress) are the real data
    structures of the model.  The model describes thread_pool.h with the C11 fixes (run(async), resume(suspend_point),
    stop() waiting for a concurrent stop()). *)
-From Cocls Require Import Base BaseProofs PoolDefs PoolProofs PoolLive.
+From Cocls Require Import Base BaseProofs PoolDefs PoolProofs PoolLive PoolTerm.
 
 (* exactly-once as conservation: at every moment a closure is in exactly one of
    invoked | destroyed un-run | queued | swapped out by one stop() in progress *)
@@ -72,3 +72,37 @@ Theorem c11_stop_no_deadlock : forall ops s,
   reachable ops s -> ~ terminal s -> (exists i, enabled s i = true) \/ user_stuck s.
 Proof. exact stop_no_deadlock. Qed.
 Print Assumptions c11_stop_no_deadlock.
+
+(* every run is finite: from a reachable state no schedule can make more than mu s steps (mu: remaining client
+   programs + job bodies + queued closures + pending wake-ups + join lists) *)
+Theorem c11_runs_are_finite : forall ops s n s',
+  reachable ops s -> steps s n s' -> n + mu s' <= mu s.
+Proof. exact runs_are_finite. Qed.
+Print Assumptions c11_runs_are_finite.
+
+(* hence the run of every case file, under every schedule, ends with every thread finished: the destructor has
+   joined all workers (or the client program deadlocked itself by leaving a thread in worker() of an idle pool) *)
+Theorem c11_run_ends : forall ops, terminal (final_state ops) \/ user_stuck (final_state ops).
+Proof. exact run_ends. Qed.
+Print Assumptions c11_run_ends.
+
+(* the model satisfies, at the end of every run, what the oracle demands of an implementation trace *)
+Theorem c11_model_final_ok : forall ops, ~ user_stuck (final_state ops) ->
+  let s := final_state ops in
+  destroyed s = true /\ uad s = false /\ stuck_list (thrs s) 0 = [] /\
+  forall c x, nth_error (clos s) c = Some x ->
+    cran x + ccanc x = 1 /\ ccanc x = cdrop x /\
+    wstate x = (if Nat.eqb (cran x) 1 then 1 else 2)%Z /\
+    (cran x = 1 -> cran_on x < length (thrs s) /\ (nclients s <= cran_on x \/ In (cran_on x) (extw s))).
+Proof. exact model_final_ok. Qed.
+Print Assumptions c11_model_final_ok.
+
+(* non-vacuity: 2 workers; a job that queries, hops to the current pool and then stops its own pool, while another
+   client submits resume(suspend_point) and the destructor races with the job's stop(): the run reaches a terminal
+   state, every closure has exactly one outcome *)
+Example c11_nonvacuous :
+  let ops := [[1;2]; [2;0;3;7;9;6]; [2;1;4]; [2;1;5;3]; [9; 0;2;1;0;3;1;1;2;0;0;3;3;1]]%Z in
+  let s := final_state ops in
+  terminalb s = true /\ length (clos s) = 4 /\
+  forallb (fun x => Nat.eqb (cran x + ccanc x) 1) (clos s) = true /\ uad s = false.
+Proof. vm_compute. repeat split. Qed.
